@@ -10,7 +10,7 @@ FUNCTIONS = ["bufferevent_socket_connect", "bufferevent_connect_getaddrinfo_cb",
 BOUNDS = ("operation shapes of length <= 5 listed in props/C19.py (connect: in progress / immediate / refused / error; hostname lookup ok / fail / cancel; write event: "
           "connected / failed / pending / wrote / error / 0; read event: data / EOF / error / retry / ECONNREFUSED; run deferred; setcb(NULL); free; enable/disable; "
           "trigger), options 0, DEFER, DEFER|THREADSAFE, DEFER|UNLOCK|THREADSAFE; the application optionally frees / clears callbacks / disables reading from inside "
-          "a chosen callback kind; byte counts and errno values inside an operation are symbolic")
+          "a chosen callback kind; errno values inside an operation are symbolic, byte counts are concrete (3 read, 5 queued, 2 or all written: the count does not influence the lifecycle code)")
 OUT = ("pair/filter/TLS bufferevents; callback order BETWEEN the two directions in one deferred run (the code runs read, write, then event callbacks; only CONNECTED-first "
        "and data-before-EOF/ERROR per direction are asserted); calls from other threads (C09) -- THREADSAFE only adds the lock monitor; real DNS; base free; "
        "a connecting socket that becomes readable before it becomes writable (not a kernel behaviour)")
@@ -35,7 +35,7 @@ S = [
  ("io_data_eof", "REV_DATA,REV_EOF,REV_DATA", "0", 5, [(R, "0"), (E, RD_EOF)], None, "q"),
  ("io_data_err", "REV_DATA,REV_ERR,REV_DATA,REV_EOF", "0", 5, [(R, "0"), (E, RD_ERR)], None, "q"),
  ("io_retry_data", "REV_RETRY,REV_DATA", "0", 5, [(R, "0")], None, "q"),
- ("io_write", "APP_WRITE,WEV_WRITE_OK,WEV_WRITE_OK", "0", 5, None, None, "q"),
+ ("io_write", "APP_WRITE,WEV_WRITE_OK,WEV_WRITE_ALL,WEV_WRITE_ALL", "0", 5, [(W, "0")], None, "q"),
  ("io_write_err", "APP_WRITE,WEV_WRITE_ERR,WEV_WRITE_OK,APP_WRITE,WEV_WRITE_ERR", "0", 5, [(E, WR_ERR)], None, "q"),
  ("io_write_zero", "APP_WRITE,WEV_WRITE_ZERO,WEV_WRITE_ZERO", "0", 5, [(E, WR_EOF)], None, "q"),
  ("io_free_in_readcb", "REV_DATA,REV_DATA,REV_EOF", "0", 5, [(R, "0")], (R, "FREE"), "q"),
@@ -58,7 +58,7 @@ S = [
  ("defts_free_in_eventcb", "REV_DATA,REV_EOF,RUN_DEFERRED", DT, 5, [(R, "0"), (E, RD_EOF)], (E, "FREE"), "t"),
  ("conn_ok", "ENABLE_R,CONNECT_INPROGRESS,WEV_CONNPENDING,WEV_CONNECTED,REV_DATA", "0", -1, [(E, CONN), (R, "0")], None, "q"),
  ("conn_fail", "ENABLE_R,CONNECT_INPROGRESS,WEV_CONNFAIL,WEV_CONNECTED,REV_DATA", "0", -1, [(E, ERR)], None, "q"),
- ("conn_once", "CONNECT_INPROGRESS,WEV_CONNECTED,WEV_CONNECTED,APP_WRITE,WEV_WRITE_OK", "0", -1, None, None, "q"),
+ ("conn_once", "CONNECT_INPROGRESS,WEV_CONNECTED,WEV_CONNECTED,APP_WRITE,WEV_WRITE_ALL", "0", -1, [(E, CONN), (W, "0")], None, "q"),
  ("conn_immediate", "CONNECT_IMMEDIATE,RUN_DEFERRED,WEV_CONNECTED,RUN_DEFERRED", "0", -1, [(E, CONN)], None, "q"),
  ("conn_immediate_nowrite", "DISABLE_W,CONNECT_IMMEDIATE,RUN_DEFERRED,WEV_CONNECTED", "0", -1, [(E, CONN)], None, "q"),
  ("conn_immediate_def", "CONNECT_IMMEDIATE,RUN_DEFERRED,WEV_CONNECTED,RUN_DEFERRED", D, -1, [(E, CONN)], None, "q"),
